@@ -22,6 +22,8 @@
   types — `Sol` of the solvers, `SRecOutput` of the serialiser — and json, which is not
   modelled): `emb : Sol → SRecOutput` with `ev (emb s) = totalCost c mode o s`
   (C06 is about `totalCost`), `parse (render d) = some d`, `NewickLaw write read`.
+  These hypotheses are DISCHARGED in `Properties/C12Bridge.lean` (concrete embedding of
+  `Model/SolOutput.lean`; only `parse (render d) = some d` for JSON text remains there).
 -/
 import SRVerif.Proofs.CliGlue
 import SRVerif.Properties.C12
